@@ -8,6 +8,14 @@ hand-written meaning of what `harness/translate/tlbparsers_blk.py` emits besides
                                references (each walked by `Rd.dictWalk` of Model/TlbRdTx.lean).  The dict is returned in walk order
                                (= ascending keys); the slice is left after the label and the leaf value / the two references.
 
+  * `Rd.tuple`                    a Python tuple → `.con "tuple" (.record [("0", a), ("1", b)])`
+  * `Rd.augWalk x y`              `parse_aug` of boc/hashmap/parse.py: label (HmLabel reader), then a leaf reads `extra:Y` THEN `value:X`
+                                  from the same cell (`extras.append(y(cs)); ret[prefix] = x(cs)`), a fork walks its two references and
+                                  then reads its own `extra:Y`; result = (entries left to right, extras in that post-order)
+  * `Rd.loadHashmapAugE n x y sp` `Slice.load_hashmap_aug_e(n, x, y)`: `self.to_cell()` for a special slice; Maybe bit; root reference
+                                  (`None` for a non-ordinary root), then the top-level `extra:Y` is read and dropped; an empty
+                                  dictionary gives `({}, [y(self)])`
+
 Core Lean only (the driver links this file).
 -/
 import TonVerif.Model.TlbRdTx
@@ -39,6 +47,62 @@ def loadHashmap (n : Nat) (rd : Frag → R) (sp : Bool) (s : Frag) : R :=
   if sp then some (.unit, s)
   else match dictWalkInline rd n s with
     | some (kv, s') => some (dict kv, s')
+    | none => none
+
+/-! ### augmented dictionaries -/
+
+/-- a Python tuple -/
+def tuple (xs : List Val) : Val := .con "tuple" (.record (enumFrom 0 xs))
+
+def augWalk (x y : Frag → R) : Nat → Nat → Bits → Cell → Option (List (Bits × Val) × List Val)
+  | 0, _, _, _ => none
+  | fuel+1, n, pfx, c =>
+    match (hmLabel n).dec ⟨c.bits, c.refs⟩ with
+    | none => none
+    | some (lv, s1) =>
+      let l := labelLen lv
+      let key := pfx ++ labelBitsOf lv
+      if n - l = 0 then
+        match y s1 with
+        | some (e, s2) =>
+          match x s2 with
+          | some (v, _) => some ([(key, v)], [e])
+          | none => none
+        | none => none
+      else
+        match s1.refs with
+        | a :: b :: more =>
+          match augWalk x y fuel (n - l - 1) (key ++ [false]) a, augWalk x y fuel (n - l - 1) (key ++ [true]) b with
+          | some l1, some l2 =>
+            match y ⟨s1.bits, more⟩ with
+            | some (e, _) => some (l1.1 ++ l2.1, l1.2 ++ l2.2 ++ [e])
+            | none => none
+          | _, _ => none
+        | _ => none
+
+/-- `Slice.load_hashmap_aug_e(n, x_deserializer=x, y_deserializer=y)` on a slice whose `is_special()` is `sp` -/
+def loadHashmapAugE (n : Nat) (x y : Frag → R) (sp : Bool) (s : Frag) : R :=
+  if sp then some (toCell sp s, s)
+  else
+    match loadBit s with
+    | some (b, s1) =>
+      if truthy b then
+        match loadRef s1 with
+        | some (c, s2) =>
+          let res : Option Val :=
+            if c.exotic then some .unit
+            else (augWalk x y (n + 1) n [] c).map fun p => tuple [dict p.1, list p.2]
+          match res with
+          | some r =>
+            match y s2 with
+            | some (_, s3) => some (r, s3)
+            | none => none
+          | none => none
+        | none => none
+      else
+        match y s1 with
+        | some (e, s2) => some (tuple [dict [], list [e]], s2)
+        | none => none
     | none => none
 
 end TonVerif.Tlb.Rd
